@@ -844,6 +844,8 @@ def Array(
                     if stream.tell() != _start:
                         raise DataError("Buffer ends inside the last array element")
                     break
+                if stream.tell() == _start:
+                    raise DataError("Cannot decode an unbound array of zero-size elements")
             return _array
 
         @classmethod
